@@ -67,7 +67,7 @@ static void do_op(Cmd *c) {
         it_slot = zit_a = zit_b = -1; o("st=-");
     } else if (is_op(c, "zit_new")) {
         int k2 = (int)kv_u64(c, "o2", 1);
-        if (k2 < 0 || k2 >= NSLOT || !Q[k] || !Q[k2] || k == k2) { o("st=- nosession"); o_sep(); o("-"); return; }
+        if (k2 < 0 || k2 >= NSLOT || !Q[k] || !Q[k2]) { o("st=- nosession"); o_sep(); o("-"); return; }
         cc_queue_zip_iter_init(&zit, Q[k], Q[k2]); zit_a = k; zit_b = k2; o("st=-");
     } else if (!strncmp(c->op, "zit_", 4)) {
         if (zit_a < 0) { o("st=- nosession"); o_sep(); o("-"); return; }
